@@ -82,6 +82,10 @@ func runC13(w *World, r *Report, tier string) {
 						kc = asCall(in)
 					}
 				}
+				if len(rc.Common().Args) < 2 || len(kc.Common().Args) < 3 {
+					bad = "keepalive and recv are not both handed one fresh quit channel when they are started"
+					return
+				}
 				ch1, ch2 := chanOrigin(rc.Common().Args[1]), chanOrigin(kc.Common().Args[2])
 				if _, isMk := ch1.(*ssa.MakeChan); ch1 != ch2 || !isMk {
 					bad = "keepalive and recv do not share one fresh quit channel"
